@@ -45,8 +45,8 @@ PROPS = {
     ),
     "C20": dict(
         level="exploration",
-        rule="AVP trees (dense trees over 6 codes with repeats at several depths, groups in groups, empty groups, undefined codes; and trees drawn from every dictionary context), built through the API or obtained by decoding, are queried with FindAVP / FindAVPs / FindAVPsWithPath by int, uint32 and name, for codes present, absent, undefined, with wildcard / exact / wrong vendor, alternating between two generated dictionaries in which the same names mean different codes; results are compared by pointer identity and order with a reference pre-order walk, and the message's AVP tree must be untouched afterwards. distinct_nontrivial counts distinct (origin, query kind, query form, number of hits capped at 3, resolvable) and (path length, hits, resolvable) classes.",
-        runs=dict(quick=[plain("TestC20", 8)], thorough=[plain("TestC20", 16, 3000)]),
+        rule="AVP trees (dense trees over 6 codes with repeats at several depths, groups in groups, empty groups, undefined codes; and trees drawn from every dictionary context), built through the API or obtained by decoding, are queried with FindAVP / FindAVPs / FindAVPsWithPath by int, uint32 and name, for codes present, absent, undefined, with wildcard / exact / wrong vendor, alternating between two generated dictionaries in which the same names mean different codes; results are compared by pointer identity and order with a reference pre-order walk, and the message's AVP tree must be untouched afterwards. Further suites: chains of groups nested 1..128 deep decoded from the wire and up to 257 deep built through the API, with a leaf at every level (search by number, by name and by the full path); 2..8 goroutines searching one message at the same time after a search that found nothing (race build: any write by a search is a reported race). distinct_nontrivial counts distinct (origin, query kind, query form, number of hits capped at 3, resolvable) and (path length, hits, resolvable) classes.",
+        runs=dict(quick=[plain("TestC20", 8), race("TestC20", 2)], thorough=[plain("TestC20", 16, 3000), race("TestC20", 8, 3000)]),
         floor=dict(quick=20000, thorough=1000000),
         need_events=["queries", "path_queries"],
         assumptions=TRUST + ["for a numeric code the dictionary does not define the library may answer 'not found' or the reference result, never a different AVP"],
